@@ -17,6 +17,7 @@ package c18
 //     nothing to revoke) are not failures; they are not injected at those calls.
 
 import (
+	"context"
 	"net/url"
 	"strings"
 	"time"
@@ -43,9 +44,12 @@ type tok struct {
 type env struct {
 	name string
 	tx   bool
-	fs   *FaultStore
-	w    *world.World
-	toks []*tok
+	// cancelling: the request under fault runs with a cancellable context, and generic faults are that
+	// context ending under the storage call (later requests use a fresh context)
+	cancelling bool
+	fs         *FaultStore
+	w          *world.World
+	toks       []*tok
 }
 
 func newEnv(name string, tx bool, tweak func(cfg *fosite.Config)) *env {
@@ -123,6 +127,9 @@ func (e *env) wait() {
 // symbolic crash points
 func (e *env) arm(pairs bool) {
 	e.wait()
+	if e.cancelling {
+		e.w.Ctx, e.fs.CancelCtx = context.WithCancel(context.Background())
+	}
 	f0 := zz.Int("fault", 0, faultBound)
 	if pairs {
 		f1 := zz.Int("fault2", 0, faultBound)
@@ -162,6 +169,9 @@ type verdict struct {
 // pre is the snapshot of the tables taken before the request.
 func (e *env) afterFault(pre *Snap, resp fosite.AccessResponder, err error, tokenRequest bool) *verdict {
 	e.fs.Disarm()
+	if e.cancelling {
+		e.w.Ctx, e.fs.CancelCtx = context.Background(), nil
+	}
 	v := &verdict{faults: e.fs.Faults, refused: err != nil, errName: world.ErrName(err), hint: hintOf(err)}
 	zz.Observe("calls", strings.Join(e.fs.Calls, " "))
 	zz.Observe("faulty.err", v.errName)
